@@ -79,6 +79,17 @@ W2FImage(q, S) == [k \in 1..Len(q) |-> IF k \in S THEN "F" ELSE q[k]]
 W2FImages(q) == {W2FImage(q, S) : S \in (SUBSET WPos(q)) \ {{}}}
 W2FAll(PP, cfg) == {x \in UNION {W2FImages(q) : q \in PP} : Keep(x, cfg)}
 
+(* the variants of one transcript of a recorded case: tr = [tx, vars, as, ...]; vars are        *)
+(* replace-[start,end)-by-alt records; as[j] says that vars[as[j].idx] is an alternative-       *)
+(* splicing record of kind as[j].kind with nested small variants as[j].nested                   *)
+ToSetP(q) == {q[k] : k \in 1..Len(q)}
+RecOf(x) == [start |-> x.start, end |-> x.end, ref |-> x.ref, alt |-> x.alt, id |-> x.id, nids |-> {}]
+NestedOf(a) == IF "nested" \in DOMAIN a THEN {[start |-> x.start, end |-> x.end, ref |-> x.ref, alt |-> x.alt, id |-> x.id] : x \in ToSetP(a.nested)} ELSE {}
+CaseVarsX(tr, strict) ==
+  {RecOf(tr.vars[k]) : k \in 1..Len(tr.vars)}
+    \cup UNION {Expansions(RecOf(tr.vars[a.idx]), a.kind = "Insertion", NestedOf(a), strict) : a \in {b \in ToSetP(tr.as) : b.kind # "Deletion"}}
+CaseVars(tr) == CaseVarsX(tr, FALSE)
+
 (* optional configuration fields (absent = off)                                    *)
 MaxAdj(cfg) == IF "maxAdj" \in DOMAIN cfg THEN cfg.maxAdj ELSE 0
 SectOn(cfg) == IF "sect" \in DOMAIN cfg THEN cfg.sect ELSE FALSE
